@@ -66,13 +66,6 @@ CLAIMED = {
         "technique": "Rocq proof by induction over option lists, registry histories and middleware lists + (1) Go->Gallina translation of the option functions, BuildMiddleware, NewWith, Register, NewRest on every run with bridge lemmas re-checked by coqc, (2) differential run of the runtime/generated client vs model",
         "coq_targets": ["Properties/C19.vo", "Corr/RestRuntimeCorr.vo"],
     },
-    "C16": {
-        "text": "Theorems over all multi-file package skeletons (unbounded), all four subcommands, all flag records / the literal argument vectors -type=L, -file=f, -type=*, and all iteration orders of Go's maps: the literal model of ParseCommonFlags/ListTypes/MakeData/confirmTypes/getGoFile/findCmdLine/fileName/Generate produces exactly the files (names and types per file, in order) the declarative reading of the property demands, named after the declaring source file, and lists them in the message; a missing/wrong-kind name yields a diagnostic and no file; the code's filters coincide with declarative eligibility. Guard: distinct identifier type names, and the input classes of five open findings, each refuted by a Coq witness and replayed against /repo. Tied to /repo by running the built binary on random skeleton packages × command lines and comparing exit class, diagnostics, written files with their types (marker methods) and the message list inside Coq.",
-        "design_ref": "DESIGN.md section 8, C16; section 13",
-        "note": COMMON_NOTE + "The package is abstracted to a skeleton (what testNode/ListTypes/go-types inspect); template execution, goimports and MergeSources are not modelled (observed through marker methods); flag.Parse and the findCmdLine regexp are re-implemented by hand. Five open findings (K_star_no_generate_line, K_enum_missing_silent, K_star_sep_file, K_local_type_listed, K_lower_collision) delimit the guard.",
-        "technique": "Rocq refinement proof (literal walkers/filters/naming ⊑ declarative spec, permutation oracles for map iteration) + differential run of the shoot binary on generated multi-file packages vs the model, compared in Coq",
-        "coq_targets": ["Properties/C16.vo", "Corr/CliCorr.vo"],
-    },
     "C17": {
         "text": "Theorems over all directory states (hard links, look-alikes, leftovers), all output lists in any order, all chunkings of every write, all temp names and ALL crash points (prefixes of the operation list): every output name shows the complete old or the complete new file; no pre-existing inode is ever written (hard links and open readers keep the old bytes); names that are not outputs, this run's temporaries or Clean victims are untouched; after normal termination no temporary remains; Clean's victims are exactly the matching files that carry the header of the same subcommand and are not all-in-one files, never a hand-written file; output names match *.shoot<cmd>*.go and are path components. Tied to cmd/shoot/main.go and generatorbase.go by strace-level trace correspondence, inode/state diffs, L1 comparison of the header regexps and glob, and (thorough) SIGKILL and concurrent-reader runs.",
         "design_ref": "DESIGN.md section 8, C17; section 13",
@@ -122,13 +115,6 @@ CLAIMED = {
         "technique": "Rocq proof (Z.testbit extensionality; loop invariant over the ascending value table) + exhaustive-per-enum differential execution vs model",
         "coq_targets": ["Properties/C14.vo", "Corr/EnumCorr.vo"],
     },
-    "C18": {
-        "text": "\"Theorems over all command lines, package syntax trees, directory states, map orders and fault oracles of a phase/effect-log model of one shoot run: every stop before the write phase leaves the directory untouched; without I/O faults and obstructing directory entries a non-zero exit changed nothing; on inputs with well-founded embedding, safe function declarations and package clauses the run always ends in a deliberate exit with status 0/1/2 (never a panic or an unbounded recursion); status 2 only comes from the command line. Eight open defects (3 panics classes, 2 non-terminations, 1 nil dereference on files without package clause, 2 exit-1-after-write) are modelled, refuted by witness and replayed. Tied to the binary by running it on typed damaged packages and comparing exit status, diagnostic class (58) and directory diff with the model's prediction inside Coq.\" (partial)",
-        "design_ref": "DESIGN.md section 8, C18; section 13",
-        "note": COMMON_NOTE + "packages.Load on syntactically broken input, the text produced by the templates and kernel-level I/O faults are not modelled: token deletions and compile errors are only checked against the property itself.",
-        "technique": "Rocq proof over an executable phase/effect-log model (invariants of the read-only phases, write/cleanup lemmas, rank-based termination) + differential run of the shoot binary on typed damaged inputs, compared inside Coq",
-        "coq_targets": ["Properties/C18.vo", "Corr/FailCorr.vo"],
-    },
     "C09": {
         "text": "Theorem: every ToX/FromX plan that passes the decidable safety check (guards = embedded-pointer chain of the field read, parents first; allocation list closed under parents and ordered) never dereferences nil, for all well-typed inputs with arbitrary nil patterns, all recursion depths, any user functions and any receiver; nil in/nil out; FromX ignores the receiver's content. The check is evaluated inside Coq on the plans of every sampled pair (all certified); that the analysis yields safe plans for every job is not proved in general. Tied to the code by executing the generated methods on exhaustive nil patterns (k<=6) incl. dirty/zero/nil receivers.",
         "design_ref": "DESIGN.md section 8, C09; section 13",
@@ -177,6 +163,20 @@ CLAIMED = {
         "note": COMMON_NOTE + "RE2 and text/template are not modelled (the six regexes are executed literally by a backtracking matcher validated differentially; the template's meaning is hand-written); parameter classification, struct-field extraction and the default header table are the model's own definitions on both sides of the refinement, tied to the code by the sampled run only; url.JoinPath, fmt %v, encoding/json enter as parameters (reference instances compared with the real functions on every run); the brace guard on path arguments is sufficient, not necessary; outside the claim: embedded struct fields, float scalars, two struct parameters, qualified named non-struct types on POST/PUT/PATCH (bound as the body on purpose), escaped base URLs.",
         "technique": "Rocq refinement proof (generator model + template semantics ⊑ declarative request; parse-of-render for the canonical directive form) by induction over parameter, field, token, entry and write lists and over symbolic strings + differential run of generated clients, directive parsers and stdlib instances vs the model",
         "coq_targets": ["Properties/C06.vo", "Corr/RestCorr.vo"],
+    },
+    "C16": {
+        "text": "Theorems over all multi-file package skeletons (unbounded; function-local types and existing non-package .go files included), all four subcommands, all flag records / the literal argument vectors -type=L, -file=f, -type=*, and all iteration orders of Go's maps: the literal model of ParseCommonFlags/ListTypes/MakeData/confirmTypes/getGoFile/findCmdLine/ fileName/Generate/main's loop produces exactly the files (names, and types per file in order) the declarative reading of the property demands, each named after the declaring source file; a missing, wrong-kind, local or constant-less name, or two types for one output file, yields a diagnostic and no file; -file on an existing file outside the package generates nothing; the code's filters coincide with declarative eligibility; getGoFile is independent of map order. Guard: package-level type names are distinct ASCII identifiers, package file names are distinct and do not start with '.' or '_', an explicit -type list implies Separate (proved of every command line), and the input classes of TWO open findings (K_star_no_generate_line, K_star_sep_file), each refuted by a Coq witness and replayed against /repo (the first also characterised for every package). 'Every written file is listed in the message' holds by construction of the model and is carried by the correspondence run. Tied to /repo by running the built binary on random skeleton packages × command lines and comparing exit class, diagnostics, written files with their types (marker methods) and the message list inside Coq.",
+        "design_ref": "DESIGN.md section 8, C16; section 13",
+        "note": COMMON_NOTE + "The package is abstracted to a skeleton (what testNode/ListTypes/go-types inspect, which files packages.Load makes part of the package); template execution, goimports and MergeSources are not modelled (observed through marker methods); flag.Parse and the findCmdLine regexp (per comment line) are re-implemented by hand; `shoot map -to` and a missing -path/[dir] are not modelled; constants are typed const specs. Open: K_star_no_generate_line, K_star_sep_file (patch withheld). Repaired in /repo and inside the theorems: K_enum_missing_silent, K_lower_collision/K_filename_case_clash, K_local_type_listed.",
+        "technique": "Rocq refinement proof (literal walkers/filters/naming/loops ⊑ declarative spec, permutation oracles for map iteration) + differential run of the shoot binary on generated multi-file packages vs the model, compared in Coq",
+        "coq_targets": ["Properties/C16.vo", "Corr/CliCorr.vo"],
+    },
+    "C18": {
+        "text": "PARTIAL. Proved, over all command lines, package syntax trees, directory states, map orders and fault oracles of an executable phase/effect-log model of one shoot run: (1) without failing system calls and without an obstructing directory entry (a directory at an output name; a non-file matching *.shoot<cmd>*.go while the all-in-one cleanup runs) a run that does not exit 0 changed nothing; (2) with a well-founded embedding relation (decidable form: declared-before-use, through generic instances and imported packages) the run ends in a deliberate exit of status 0/1/2: no unbounded recursion, and none of the 11 index expressions / nil-able dereferences of the transcribed Go functions is reached outside its guard; (3) status 2 comes from the command line only. NOT proved, sampled by the correspondence run only: absence of panics in library code and in generator code that is not transcribed; that the read phases (go list, Generate) write nothing (structural in the model); behaviour on syntactically broken packages. Open defects, modelled, refuted by witness and replayed: 2 non-terminations (embedding cycles, also through generic and imported types), 2 exit-1-after-write (obstructing directory entries). Tied to the binary by running it on typed damaged packages, histories of earlier outputs and two injected I/O faults and comparing exit status, diagnostic class (60) and directory diff with the model's prediction inside Coq.",
+        "design_ref": "DESIGN.md section 8, C18; section 13",
+        "note": COMMON_NOTE + "partial: packages.Load on syntactically broken input, the text produced by the templates (oracle), go/types facts (recomputed from the abstract syntax) and the untranscribed parts of the generators are outside the proofs; token deletions and compile errors are checked against the property itself only; I/O faults beyond CreateTemp/Write of the first file are theorem-only.",
+        "technique": "Rocq proof over an executable phase/effect-log model (generic invariant pass over the literal control flow, guarded partial operations proved unreachable, rank-based termination over package scopes, write/cleanup frame lemmas) + differential run of the shoot binary on typed damaged inputs, directory histories and injected I/O faults, compared inside Coq",
+        "coq_targets": ["Properties/C18.vo", "Corr/FailCorr.vo"],
     },
 }
 
